@@ -165,8 +165,13 @@ class NameSanitizer:
         # If it starts with a digit, prefix with underscore
         if cls_name[0].isdigit():  # Check after ensuring cls_name is not empty
             cls_name = "_" + cls_name
-        # Avoid Python keywords and reserved names (case-insensitive)
-        if keyword.iskeyword(cls_name.lower()) or cls_name.lower() in NameSanitizer.RESERVED_NAMES:
+        # Avoid Python keywords and reserved names (case-insensitive); the capitalised keywords None/True/False
+        # are only caught by testing the name itself
+        if (
+            keyword.iskeyword(cls_name.lower())
+            or keyword.iskeyword(cls_name)
+            or cls_name.lower() in NameSanitizer.RESERVED_NAMES
+        ):
             cls_name += "_"
         return cls_name
 
